@@ -23,7 +23,7 @@ class Collector(CallTraceLogger):
 
 def resolve(spec):
     if isinstance(spec, str) and spec != progs.ABSENT:
-        ns = {"Dict": Dict, "Type": Type, "int": int, "str": str, "Shape": progs.Shape, "Square": progs.Square, "Point": progs.Point, "Label": progs.Label}
+        ns = {"Dict": Dict, "Type": Type, "int": int, "str": str, "Shape": progs.Shape, "Square": progs.Square, "Point": progs.Point, "Label": progs.Label, "Pixel": progs.Pixel}
         return eval(spec.replace("Dict[str,int]", "Dict[str, int]"), ns)
     return spec
 
@@ -48,8 +48,14 @@ def expected_function(qualname):
     return inspect.unwrap(obj)
 
 
-def run_scenario(name, sample_rate=None):
-    col = Collector()
+class FailingCollector(Collector):
+    def log(self, trace):
+        self.traces.append(trace)
+        raise RuntimeError("logger failure")
+
+
+def run_scenario(name, sample_rate=None, col=None):
+    col = col or Collector()
     tracer_box = {}
     import sys
     fn = getattr(progs, name)
@@ -109,6 +115,19 @@ def run(ctx):
             else:
                 H.violation("monkeytype.tracing:CallTracer.__call__", "scenario:%s:%s" % (name, observed), "scenario %s: traces differ from the faithful ones" % name,
                             {"scenario": name}, observed, [str(e) for e in expected])
+    # ---- a logger that fails on every trace: each finished call is still handed over exactly once and its per-call state is dropped
+    H.section("failing logger", "the same scenarios with a logger whose log() raises after recording: one hand-over per finished call, tracer.traces empty afterwards", "%d scenarios" % (len(progs.EXPECT) - len(KNOWN)))
+    for name, expected in progs.EXPECT.items():
+        if name in KNOWN:
+            continue
+        col, tracer = run_scenario(name, col=FailingCollector())
+        residue = len(tracer.traces)
+        if len(col.traces) == len(expected) and residue == 0:
+            H.ok("failing-logger:" + name, sample={"scenario": name, "handed_over": len(col.traces)})
+        else:
+            H.violation("monkeytype.tracing:CallTracer.handle_return", "failing-logger:%s:handed=%d:residue=%d" % (name, len(col.traces), residue),
+                        "scenario %s with a failing logger: finished calls keep per-call state in the tracer / are handed over a wrong number of times" % name,
+                        {"scenario": name, "logger": "log raises"}, {"handed_over": len(col.traces), "residue": residue}, {"handed_over": len(expected), "residue": 0})
     # ---- short-lived code: unresolvable code objects that are freed, then new resolvable functions (address reuse must not confuse the tracer's cache)
     rounds = 150
     H.section("short-lived code", "rounds of: an anonymous lambda compiled, called in place and discarded (unresolvable: not logged), then a freshly exec'd module-level function called once: "
